@@ -620,6 +620,125 @@ static void run_gather_scatter()
     R.per_op[std::string("gather/scatter<") + tn<T>::name() + ">"] += cnt;
 }
 
+// ---- gather / scatter with UNSIGNED indices whose top bit is set (8- and 16-bit lanes: the table can be that large) ----
+template <class T>
+static void run_gather_scatter_unsigned()
+{
+    if constexpr (sizeof(T) <= 2)
+    {
+        g_section = "gather/scatter with unsigned indices";
+        using U = xs::as_unsigned_integer_t<T>;
+        const size_t n = B<T>::size, tab = (size_t)1 << (8 * sizeof(T)); // every index value addresses the table
+        const size_t F = tab * sizeof(T);
+        const size_t pages = (F + PAGE - 1) / PAGE;
+        // own arena: [NONE][table pages][NONE], the table against either guard
+        unsigned char* ar = (unsigned char*)mmap(nullptr, (pages + 2) * PAGE, PROT_NONE, MAP_PRIVATE | MAP_ANONYMOUS, -1, 0);
+        if (ar == MAP_FAILED || mprotect(ar + PAGE, pages * PAGE, PROT_READ | PROT_WRITE))
+        {
+            perror("mmap");
+            _exit(98);
+        }
+        unsigned char* lo = ar + PAGE;
+        unsigned char* hi = lo + pages * PAGE;
+        std::vector<std::vector<size_t>> V;
+        const size_t half = tab / 2, top = tab - 1;
+        for (size_t start : { (size_t)0, half - n / 2, half, top - (n - 1), half + 3 })
+        {
+            std::vector<size_t> v(n);
+            for (size_t i = 0; i < n; ++i)
+                v[i] = (start + i) % tab;
+            V.push_back(v);
+        }
+        {
+            std::vector<size_t> v(n), w(n), x(n);
+            for (size_t i = 0; i < n; ++i)
+            {
+                v[i] = top - i * (tab / n / 2); // descending from the last element
+                w[i] = (i % 2) ? top - i : i; // alternating low / high
+                x[i] = top;
+            }
+            V.push_back(v);
+            V.push_back(w);
+            V.push_back(x);
+        }
+        uint64_t cnt = 0;
+        std::vector<T> tv(tab);
+        for (unsigned char* base : { hi - F, lo })
+        {
+            T* table = (T*)base;
+            for (auto& iv : V)
+            {
+                ++cnt;
+                for (size_t e = 0; e < pages * PAGE; ++e)
+                    lo[e] = pat(e, 11);
+                memcpy(tv.data(), base, F);
+                U idx[64];
+                for (size_t i = 0; i < n; ++i)
+                    idx[i] = (U)iv[i];
+                xs::batch<U, A> bi = xs::batch<U, A>::load_unaligned(idx);
+                g_armed = 1;
+                asm volatile("" ::: "memory");
+                if (sigsetjmp(g_env, 1))
+                {
+                    violation("gather (unsigned index)", tn<T>::name(), "faulted at byte " + std::to_string((long)((unsigned char*)g_fault_addr - base)) + " relative to a table of " + std::to_string(F) + " bytes");
+                    continue;
+                }
+                B<T> g = B<T>::gather(table, bi);
+                asm volatile("" ::: "memory");
+                g_armed = 0;
+                T got[64];
+                g.store_unaligned(got);
+                for (size_t i = 0; i < n; ++i)
+                    if (memcmp(&got[i], &tv[iv[i]], sizeof(T)) != 0)
+                    {
+                        violation("gather (unsigned index)", tn<T>::name(), "lane " + std::to_string(i) + " does not hold table element " + std::to_string(iv[i]));
+                        break;
+                    }
+                T lanes[64];
+                for (size_t i = 0; i < n; ++i)
+                {
+                    U bits = (U)(0x40 + i);
+                    memcpy(&lanes[i], &bits, sizeof(T));
+                }
+                B<T> sv = B<T>::load_unaligned(lanes);
+                g_armed = 1;
+                asm volatile("" ::: "memory");
+                if (sigsetjmp(g_env, 1))
+                {
+                    violation("scatter (unsigned index)", tn<T>::name(), "faulted at byte " + std::to_string((long)((unsigned char*)g_fault_addr - base)) + " relative to a table of " + std::to_string(F) + " bytes");
+                    continue;
+                }
+                sv.scatter(table, bi);
+                asm volatile("" ::: "memory");
+                g_armed = 0;
+                std::vector<char> indexed(tab, 0), match(tab, 0);
+                for (size_t i = 0; i < n; ++i)
+                {
+                    indexed[iv[i]] = 1;
+                    if (memcmp(&table[iv[i]], &lanes[i], sizeof(T)) == 0)
+                        match[iv[i]] = 1;
+                }
+                for (size_t e = 0; e < tab; ++e)
+                    if (indexed[e] ? !match[e] : memcmp(&table[e], &tv[e], sizeof(T)) != 0)
+                    {
+                        violation("scatter (unsigned index)", tn<T>::name(), indexed[e] ? "indexed table element " + std::to_string(e) + " does not hold the value of a lane that targets it" : "table element " + std::to_string(e) + " was modified although no lane indexes it");
+                        break;
+                    }
+                for (unsigned char* q = lo; q < hi; ++q)
+                    if ((q < base || q >= base + F) && *q != pat((size_t)(q - lo), 11))
+                    {
+                        violation("scatter (unsigned index)", tn<T>::name(), "a byte outside the table was modified");
+                        break;
+                    }
+            }
+        }
+        munmap(ar, (pages + 2) * PAGE);
+        R.states += cnt;
+        R.transitions += cnt * 2 * n;
+        R.per_op[std::string("gather/scatter(unsigned index)<") + tn<T>::name() + ">"] += cnt;
+    }
+}
+
 // ---- broadcast and element-list constructor ----
 template <class T, size_t... I>
 static B<T> from_list(const T* v, std::index_sequence<I...>) { return B<T>(v[I]...); }
@@ -671,6 +790,7 @@ static void run_type()
     run_plain<T>();
     run_bool<T>();
     run_gather_scatter<T>();
+    run_gather_scatter_unsigned<T>();
     run_fill<T>();
     run_convert_from<T, int8_t, uint8_t, int16_t, uint16_t, int32_t, uint32_t, int64_t, uint64_t, float, double>();
 }
